@@ -186,10 +186,21 @@ def known_value(t):
     return None
 
 
+def as_cond(t):
+    """Truth value of a term used as a condition, when it is decided by its shape (literal sequences, constants)."""
+    if t[0] in ('list', 'tuple'):
+        return C(len(t[1]) > 0)
+    if t[0] == 'dict':
+        return C(len(t[1]) > 0)
+    if t[0] == 'const':
+        return C(bool(t[1]))
+    return t
+
+
 def simp1(t):
     k = t[0]
     if k == 'not':
-        a = t[1]
+        a = as_cond(t[1])
         if a[0] == 'const':
             return C(not a[1])
         if a[0] == 'not':
@@ -205,6 +216,9 @@ def simp1(t):
             return None  # syntactically equal symbolic terms: leave (could be NaN-like); rules decide
         if op in CMPF and is_num(a) and is_num(b):
             return C(CMPF[op](a[1], b[1]))
+        if op in ('In', 'NotIn') and b[0] == 'dict' and ka is not None and all(known_value(kk) is not None for kk, _ in b[1]):
+            r = ka in [known_value(kk) for kk, _ in b[1]]
+            return C(r if op == 'In' else not r)
         if op in ('In', 'NotIn') and is_literal_seq(b) and ka is not None:
             ks = [known_value(x) for x in b[1]]
             if all(x is not None for x in ks):
@@ -218,6 +232,9 @@ def simp1(t):
             r = OR(*t[2])
         return r if r != t else None
     if k == 'ite':
+        c = as_cond(t[1])
+        if c != t[1]:
+            return simp(('ite', c, t[2], t[3]))
         if t[1] == TRUE: return t[2]
         if t[1] == FALSE: return t[3]
         if t[2] == t[3]: return t[2]
@@ -231,6 +248,8 @@ def simp1(t):
         if op == 'Add' and a[0] == 'const' and b[0] == 'const' and isinstance(a[1], str) and isinstance(b[1], str):
             return C(a[1] + b[1])
         return None
+    if k == 'idx' and t[1][0] == 'ite' and is_literal_seq(t[1][2]) and is_literal_seq(t[1][3]):
+        return simp(('ite', t[1][1], ('idx', t[1][2], t[2]), ('idx', t[1][3], t[2])))
     if k == 'idx':
         b, i = t[1], t[2]
         if is_literal_seq(b) and i[0] == 'const' and isinstance(i[1], int) and not isinstance(i[1], bool):
@@ -251,6 +270,22 @@ def simp1(t):
         return None
     if k == 'call':
         f, args = t[1], t[2]
+        if f[0] == 'attr' and f[2] == 'get' and f[1][0] == 'dict' and len(args) in (1, 2):
+            ki = known_value(args[0])
+            if ki is not None and all(known_value(kk) is not None for kk, _ in f[1][1]):
+                for kk, vv in f[1][1]:
+                    if known_value(kk) == ki:
+                        return vv
+                return args[1] if len(args) == 2 else NONE
+        if f in (S('any'), S('all')) and len(args) == 1 and is_literal_seq(args[0]):
+            xs = [as_cond(x) for x in args[0][1]]
+            return OR(*xs) if f == S('any') else AND(*xs)
+        if f in (S('list'), S('tuple')) and len(args) == 1 and is_literal_seq(args[0]):
+            return (f[1], args[0][1])
+        if f == S('bool') and len(args) == 1:
+            c = as_cond(args[0])
+            if c[0] == 'const':
+                return c
         if f == S('len') and len(args) == 1:
             if is_literal_seq(args[0]):
                 return C(len(args[0][1]))
